@@ -151,7 +151,7 @@ def one_run(w, ps, m, arg, plan, cold=False):
     other_gone = (out == "NSP" and epid is not None and epid != PID and epid not in w.procs
                   and m != "parent")
     return {"m": m, "arg": arg, "plan": plan, "acc": [{"op": a["op"], "res": a["res"], "phase": a["phase"]} for a in acc],
-            "paths": [a["path"] for a in acc][:40],
+            "paths": [a["path"] for a in acc][:400],
             "out": out, "wellformed": wf, "pidok": pidok, "epid": epid,
             "phaseEnd": "gone" if other_gone else phase(w), "follow": follow, "n": n}
 
